@@ -444,6 +444,7 @@ func (e *simEnv) judge(res drive.Result, tag string) (flow *refmatch.Flow, js []
 					c.Violate("C04", fmt.Sprintf("dest-mark/%s/%s/got%v", v.Name, x.j.d.Frame.Class, h.IsDest), fmt.Sprintf("%s: hop %d (%s) destination=%v, reference %v (%s)", tag, t, a, h.IsDest, x.dest, x.j.out.Why), detail())
 				}
 				e.checkRTT(tag, t, h.RTT, x.rtt, pollTol, detail)
+				e.checkArrival(tag, t, h.RTT, x.j, sentAt[t], pollTol, detail)
 			}
 		}
 		return f, js
@@ -476,6 +477,9 @@ func (e *simEnv) judge(res drive.Result, tag string) (flow *refmatch.Flow, js []
 				want := jj.d.ReadAt.Sub(p.SentAt)
 				if math.Abs(h.RTT-msOf(want)) <= 0.002 {
 					ok = true
+					if !v.Serial {
+						e.checkArrival(tag, t, h.RTT, jj, p, pollTol, detail)
+					}
 				}
 				best = want
 			}
@@ -485,6 +489,20 @@ func (e *simEnv) judge(res drive.Result, tag string) (flow *refmatch.Flow, js []
 		}
 	}
 	return f, js
+}
+
+// checkArrival: C05 measures to the ARRIVAL of the reply. The tool can only stamp a frame when it reads it, so a
+// receiver that is not reading while frames arrive (parallel engines read continuously from the first send on)
+// reports an inflated RTT that still equals read-instant minus send-instant. Applied to parallel variants: the
+// accepted frame must have been read within one poll interval of the instant the wire delivered it to the handle.
+func (e *simEnv) checkArrival(tag string, t int, gotMs float64, j *judged, p *refmatch.Probe, tol time.Duration, detail func() map[string]any) {
+	if e.spec.V.Serial || j == nil || p == nil || !j.d.Read {
+		return
+	}
+	e.c.Count("arrival_checked", 1)
+	if late := j.d.ReadAt.Sub(j.d.At); late > tol {
+		e.c.Violate("C05", "late-read/"+e.spec.V.Name, fmt.Sprintf("%s: hop %d RTT %.3f ms, but the accepted reply (frame #%d) arrived %.3f ms after its probe and was only read %.3f ms later (tolerance one poll interval %.0f ms)", tag, t, gotMs, j.d.Frame.ID, msOf(j.d.At.Sub(p.SentAt)), msOf(late), msOf(tol)), detail())
+	}
 }
 
 func (e *simEnv) checkRTT(tag string, t int, gotMs float64, want time.Duration, tol time.Duration, detail func() map[string]any) {
